@@ -11,6 +11,147 @@ TRG = 'mistral.services.triggers'
 DB = 'mistral.db.v2.sqlalchemy.api'
 
 
+def cron_creation_tables(ctx, rule, ct, vf):
+    """Finite-domain evaluation of trigger creation over (first time given,
+    pattern given, count in {None, 0, 1, 2}): a trigger with only a first
+    execution time gets count 1 (it fires once), the next execution time is
+    the first time when given and the pattern's next occurrence otherwise;
+    validation refuses: neither first time nor pattern, a first time less
+    than a minute ahead, a count above 1 without a pattern."""
+    from mstatic.rules import dt
+    from mstatic.statedom import OBJ, UNK
+    P = ct.params
+    need = ('pattern', 'first_time', 'count')
+    if any(p not in P for p in need):
+        raise AnalysisError('C17.R4: create_cron_trigger parameters changed')
+    cnt_dom = (None, 0, 1, 2)
+    variables = [('first_time', (None, OBJ)), ('pattern', (None, OBJ)),
+                 ('count', cnt_dom)]
+    t = dt.Table(ctx, ct, variables, mutable=('first_time', 'count'))
+    # the stored values
+    ins = [c for _n, c in t.cfg.calls(
+        lambda c: U.call_name(c) == 'create_cron_trigger')]
+    dicts = [x for x in own_nodes(ct.node) if isinstance(x, ast.Dict) and
+             any(isinstance(k, ast.Constant) and
+                 k.value == 'remaining_executions' for k in x.keys)]
+    if len(dicts) != 1 or not ins:
+        raise AnalysisError('C17.R4: stored trigger values not found')
+    d = dicts[0]
+    vals = {k.value: v for k, v in zip(d.keys, d.values)
+            if isinstance(k, ast.Constant)}
+    dn = t.cfg.node_of(d)
+    bad = []
+    for v in t.full_at(dn):
+        env = t.env(v)
+        got = t.ev(vals['remaining_executions'], v)
+        if env['first_time'] is not None and env['pattern'] is None and \
+                not got:
+            bad.append(env)
+    # which original requests can reach the store with which count: the
+    # count is only ever re-assigned to 1, under "first time only"
+    stores = t.stmt_nodes(lambda a: isinstance(a, ast.Assign) and
+                          dotted(a.targets[0]) == 'count')
+    rule.check(len(stores) == 1 and
+               isinstance(stores[0].ast.value, ast.Constant) and
+               stores[0].ast.value.value == 1,
+               ctx.construct(ct, extra='count only defaulted to 1'),
+               'the count of a cron trigger is re-assigned to something '
+               'other than the default 1 of a first-time-only trigger',
+               ctx.loc(ct))
+    if len(stores) == 1:
+        t.check_exact(rule, stores[0],
+                      lambda e: e['first_time'] is not None and
+                      e['pattern'] is None and not e['count'],
+                      'the count is defaulted to 1',
+                      'first-time-only fires once')
+    rule.check(not bad and norm(vals['remaining_executions']) == 'count',
+               ctx.construct(ct, extra='stored count'),
+               'a trigger with only first_execution_time is stored without '
+               'a count (%s): it is never removed and fires again'
+               % (bad[:1],), ctx.loc(ct, d))
+    # next execution time
+    nt = vals.get('next_execution_time')
+    nname = dotted(nt) if nt is not None else None
+    asg = t.stmt_nodes(lambda a: isinstance(a, ast.Assign) and
+                       nname is not None and dotted(a.targets[0]) == nname)
+    if len(asg) != 2:
+        raise AnalysisError('C17.R4: next execution time assignments')
+    for n in asg:
+        val = n.ast.value
+        if dotted(val) == 'first_time':
+            t.check_exact(rule, n, lambda e: e['first_time'] is not None,
+                          'the first execution time is used as next time',
+                          'next time (first time given)')
+        elif isinstance(val, ast.Call) and \
+                U.call_name(val) == 'get_next_execution_time':
+            rule.check(bool(val.args) and norm(val.args[0]) == 'pattern',
+                       ctx.construct(ct, val, extra='from the pattern'),
+                       'the next time is not computed from the pattern',
+                       ctx.loc(ct, val))
+            t.check_exact(rule, n, lambda e: e['first_time'] is None,
+                          'the next time is computed from the pattern',
+                          'next time (no first time)')
+        else:
+            rule.fail(ctx.construct(ct, n.ast, extra='next time'),
+                      'unexpected source of next_execution_time',
+                      ctx.loc(ct, n.ast))
+    rule.check(norm(vals.get('first_execution_time')) == 'first_time' and
+               norm(vals.get('pattern')) == 'pattern',
+               ctx.construct(ct, extra='stored pattern / first time'),
+               'pattern / first_execution_time are not stored as given',
+               ctx.loc(ct, d))
+    t.undecided(rule, 'first time, pattern and count', skip=lambda e: (
+        True if any(isinstance(x, ast.Name) and x.id in
+                    ('start_time', 'workflow_id', 'isinstance')
+                    for x in ast.walk(e))
+        else None), force=[s_.ast for s_ in stores])
+    # ---- validation
+    VP = vf.params
+    if VP[:3] != ['pattern', 'first_time', 'count']:
+        raise AnalysisError('C17.R4: validate_cron_trigger_input signature')
+    soon = [x for x in own_nodes(vf.node) if isinstance(x, ast.Compare) and
+            len(x.ops) == 1 and
+            isinstance(x.ops[0], (ast.Lt, ast.LtE, ast.Gt, ast.GtE)) and
+            'first_time' in U.names_in(x) and 'count' not in U.names_in(x)]
+    if len(soon) != 1:
+        raise AnalysisError('C17.R4: minimum first time test not found')
+    ksoon = dt.text(soon[0])
+    # orientation: the comparison is true when the first time is too early
+    c0 = soon[0]
+    left_is_first = 'first_time' in U.names_in(c0.left)
+    early_when_true = isinstance(c0.ops[0], (ast.Lt, ast.LtE)) \
+        if left_is_first else isinstance(c0.ops[0], (ast.Gt, ast.GtE))
+    tv = dt.Table(ctx, vf, [('first_time', (None, OBJ)),
+                            ('pattern', (None, OBJ)),
+                            ('count', (None, 0, 1, 2, 3)),
+                            (ksoon, (True, False))])
+    # the minimum is now + 60 s
+    mins = [x for x in own_nodes(vf.node) if isinstance(x, ast.Call) and
+            U.call_name(x) == 'timedelta']
+    rule.check(any(U.phas(x, 'datetime.timedelta(0, 60)') or
+                   U.phas(x, 'datetime.timedelta(seconds=60)') or
+                   U.phas(x, 'datetime.timedelta(minutes=1)') for x in mins),
+               ctx.construct(vf, extra='one minute ahead'),
+               'the minimum first execution time is not one minute ahead',
+               ctx.loc(vf))
+
+    def accepted(e):
+        early = e[ksoon] if early_when_true else (not e[ksoon])
+        if e['first_time'] is None and e['pattern'] is None:
+            return False
+        if e['first_time'] is not None and early:
+            return False
+        if e['first_time'] is not None and e['pattern'] is None and \
+                e['count'] and e['count'] > 1:
+            return False
+        return True
+    tv.check_exact(rule, tv.cfg.exit, accepted,
+                   'a cron trigger request is accepted',
+                   'validation table')
+    tv.undecided(rule, 'first time, pattern, count and the minimum time',
+                 skip=None)
+
+
 def run(ctx):
     prog, sd = ctx.prog, ctx.sd
 
@@ -235,19 +376,24 @@ def run(ctx):
              ctx.construct(ct, extra='validate before insert'),
              'the trigger is stored without validating pattern / first time '
              '/ count first', ctx.loc(ct))
-    one = [x for x in own_nodes(ct.node) if isinstance(x, ast.Assign) and
-           dotted(x.targets[0]) == 'count' and norm(x.value) == '1']
-    okone = False
-    for x in one:
-        sn = ccfg.stmt_node(x)
-        okone = U.guarded(ccfg, sn, 'pattern or count', False) and \
-            U.guarded(ccfg, sn, 'first_time', True)
-    r4.check(okone, ctx.construct(ct, extra='first-time-only fires once'),
-             'a trigger with only first_execution_time does not get '
-             'count = 1', ctx.loc(ct))
-    vf = prog.func(TRG + '.validate_cron_trigger_input')
-    r4.check(sum(1 for x in own_nodes(vf.node)
-                 if isinstance(x, ast.Raise)) >= 4 and
-             U.phas(vf.node, 'croniter.croniter(pattern)'),
-             ctx.construct(vf), 'creation-time validation lost a check',
-             ctx.loc(vf))
+    cron_creation_tables(ctx, r4, ct, prog.func(
+        TRG + '.validate_cron_trigger_input'))
+    # the trigger is stored with a trust (it fires on behalf of its
+    # project, long after the request's token has expired) and after the
+    # workflow input was checked against the workflow's declared input
+    for n, c in ins:
+        arg = norm(c.args[0]) if c.args else None
+        tr = [d for d in ccfg.dominators(n) if any(
+            isinstance(x, ast.Call) and U.call_name(x) == 'add_trust_id' and
+            x.args and norm(x.args[0]) == arg for x in ccfg.own_nodes(d))]
+        r4.check(bool(tr), ctx.construct(ct, c, extra='trust attached'),
+                 'the trigger is stored without a trust id: when it fires '
+                 'there is no identity to start the workflow on behalf of '
+                 'its project', ctx.loc(ct, c))
+        vi = [d for d in ccfg.dominators(n) if any(
+            isinstance(x, ast.Call) and U.call_name(x) == 'validate_input'
+            and len(x.args) >= 2 and norm(x.args[1]) == 'workflow_input'
+            for x in ccfg.own_nodes(d))]
+        r4.check(bool(vi), ctx.construct(ct, c, extra='input validated'),
+                 'the trigger is stored without checking its workflow input '
+                 'against the workflow definition', ctx.loc(ct, c))
